@@ -354,6 +354,8 @@ def known_case(rng):
     g = CGen(rng, maxdepth=rng.choice([0, 1, 1, 1]), clash=rng.choice([0, 0, 0, 0.5]), lowglobal=rng.choice([0, 0, 0, 1]),
              hive_index=rng.choice([0, 0, 0.15]) if d == "HIVE" else 0)
     text, q = g.query()
+    text, style = anfam.recase(rng, text)          # keywords in lower / Capitalised / mixed case
+    g.tags.add("keywords:" + style)
     return {"text": text, "q": q, "tags": sorted(g.tags), "dialect": d}
 
 
